@@ -132,6 +132,11 @@ mk H4; d=$D
 edit "$d/stats/hypergdist.go" 's.replace("float64(d.Draws*d.K*(d.N-d.K)*(d.N-d.Draws)) /\n\t\tfloat64(d.N*d.N*(d.N-1))", "float64((d.N-d.K)*d.K*(d.N-d.Draws)*d.Draws) /\n\t\tfloat64((d.N-1)*d.N*d.N)").replace("float64(d.Draws*d.K) / float64(d.N)", "float64(d.K*d.Draws) / float64(d.N)")'
 expect H4 "$d" C06 ok
 
+echo "== H5 harmless: Add updates Min and Max under or-conditions instead of nested ifs"
+mk H5; d=$D
+edit "$d/stats/stream.go" 's.replace("\tif s.Count == 0 {\n\t\ts.Min, s.Max = x, x\n\t} else {\n\t\tif x < s.Min {\n\t\t\ts.Min = x\n\t\t}\n\t\tif x > s.Max {\n\t\t\ts.Max = x\n\t\t}\n\t}\n", "\tif s.Count == 0 || x < s.Min {\n\t\ts.Min = x\n\t}\n\tif s.Count == 0 || x > s.Max {\n\t\ts.Max = x\n\t}\n")'
+expect H5 "$d" C13 ok
+
 echo "== B1 breaking: Combine drops the delta*delta term"
 mk B1; d=$D
 edit "$d/stats/stream.go" 's.replace("vM2 := s.vM2 + o.vM2 + delta*delta*float64(s.Count)*float64(o.Count)/float64(count)", "vM2 := s.vM2 + o.vM2")'
